@@ -24,7 +24,42 @@ def lstrip_lines(s):
     return "\n".join(x.lstrip(" \t") for x in s.split("\n"))
 
 
-def tok(t, kids=True):
+import re as _re
+
+_WS = _re.compile(r"[ \t]+")
+
+
+def _kidsw(children):
+    """children with white-space runs inside code spans collapsed (tab law: a code span continued
+    on the next line may keep source indentation)"""
+    out = []
+    for c in children:
+        d = c.as_dict()
+        if c.type == "code_inline":
+            d["content"] = _WS.sub(" ", d["content"])
+        if c.children:
+            d["children"] = _kidsw(c.children)
+        out.append(d)
+    return out
+
+
+def _ctl(tokens):
+    n = 0
+    for t in tokens:
+        n += t.content.count("\r") + t.content.count("\x00")
+        if t.children:
+            n += _ctl(t.children)
+    return n
+
+
+def tok(t, kids=True, kidsw=False):
+    d = _tok(t, kids)
+    if kidsw:
+        d["kidsw"] = jstr(_kidsw(t.children)) if t.children is not None else "null"
+    return d
+
+
+def _tok(t, kids=True):
     return {"ty": C.ascii_safe(t.type), "tag": C.ascii_safe(t.tag), "n": t.nesting, "lv": t.level,
             "map": list(t.map) if t.map is not None else [], "mk": C.ascii_safe(t.markup), "info": C.ascii_safe(t.info),
             "c": C.ascii_safe(t.content), "cl": C.ascii_safe(lstrip_lines(t.content)), "hid": 1 if t.hidden else 0,
@@ -52,11 +87,16 @@ def refs_of(env):
     return out, dups
 
 
-def parse(md, doc, kids=True, env=None, html=False):
+def parse(md, doc, kids=True, env=None, html=False, raw=False, kidsw=False):
     env = {} if env is None else env
     toks = md.parse(doc, env)
     refs, dups = refs_of(env)
-    p = {"lines": lines_of(doc), "toks": [tok(t, kids) for t in toks], "refs": refs, "dups": dups}
+    p = {"lines": lines_of(doc) if not raw else [], "toks": [tok(t, kids, kidsw) for t in toks], "refs": refs, "dups": dups}
+    if raw:
+        p["raw"] = C.cps(doc)
+        p["ctl"] = _ctl(toks)
+        # tabs that remain inside a content line after its leading blanks (such a tab is content, not structure)
+        p["tabc"] = sum(lstrip_lines(t.content).count("\t") for t in toks)
     if html:
         p["html"] = C.ascii_safe(md.renderer.render(toks, md.options, env))
     return p
